@@ -6,13 +6,13 @@ rnd,wtb,outb=sys.argv[1:4]; ids=sys.argv[4:]
 props={json.loads(l)['id']:json.loads(l) for l in open('/verif/properties.jsonl')}
 design=open('/verif/DESIGN.md').read()
 rows={}
-for m in re.finditer(r'^\| (C\d\d)-m(\d) \| (.*?) \|', design, re.M):
+for m in re.finditer(r'^\| (C\d\d)-m(\d+) \| (.*?) \|', design, re.M):
     rows.setdefault(m.group(1),[]).append(re.sub(r'`','',m.group(3)))
 T=open('/verif/tools/round_prompt.txt').read()
 for pid in ids:
     p=props[pid]; wt=wtb+'/'+pid; out=outb+'/'+pid
     os.makedirs(out,exist_ok=True)
-    subprocess.run(['git','-C','/repo','worktree','add','--detach',wt,'HEAD'],check=True,capture_output=True)
+    if not os.path.exists(wt): subprocess.run(['git','-C','/repo','worktree','add','--detach',wt,'HEAD'],check=True,capture_output=True)
     ptxt='Property %s: %s\n\nStatement: %s\n\nQuantified over: %s\n\nCode anchors (files): %s\n'%(pid,p['title'],p['statement'],p['quantifier']['text'],', '.join(p['anchors']['files']))
     open(out+'/PROPERTY.txt','w').write(ptxt)
     t=T.replace('@WT@',wt).replace('@OUT@',out).replace('@PROPERTY@',ptxt).replace('@ROUND@',rnd).replace('@EARLIER@','; '.join(rows.get(pid,[])))
